@@ -27,7 +27,10 @@ def funcs_in(prog: Program, patterns: Sequence[str]) -> List[FuncInfo]:
 
 
 # --------------------------------------------------------------------- G1
-def g1_literal_attrs(prog: Program, run: Run, rule: str, patterns: Sequence[str]) -> int:
+def g1_literal_attrs(prog: Program, run: Run, rule: str, patterns: Sequence[str],
+                     forwarded_in: Sequence[str] = ()) -> int:
+    """``forwarded_in``: functions (by name) in which a getattr() default must not hide an
+    attribute that the raw class of a wrapper has but the wrapper does not forward."""
     n = 0
     all_classes = list(prog.classes_by_mod.values())
     for f in funcs_in(prog, patterns):
@@ -51,7 +54,23 @@ def g1_literal_attrs(prog: Program, run: Run, rule: str, patterns: Sequence[str]
                 for c in cls:
                     cand += prog.mro(c)
                     cand += prog.subclasses(c)
-                if any(class_has_attr(prog, c, name) for c in cand):
+                # wrapper classes (K) around raw classes (KRaw): a default hides the attribute
+                # of every K that does not forward what its KRaw has
+                hidden = []
+                if len(x.args) >= 3 and f.name in forwarded_in:
+                    for c in cls:
+                        for k in [c] + list(prog.subclasses(c)):
+                            raw = prog.classes.get(k.name + "Raw")
+                            if raw is not None and class_has_attr(prog, raw, name) and not any(
+                                    class_has_attr(prog, b, name) for b in prog.mro(k)):
+                                hidden.append(k.name)
+                if hidden:
+                    run.violation(rule, construct, f"default-hides-{name}-of-{sorted(hidden)[0]}",
+                                  f"`{ast.unparse(x)}` yields its default for "
+                                  f"{sorted(set(hidden))}, whose raw class has `{name}` but "
+                                  "which does not forward it: what is described there is "
+                                  "silently ignored", where, stmt_key(x))
+                elif any(class_has_attr(prog, c, name) for c in cand):
                     run.ok(rule, construct, f"`{ast.unparse(x)}`: {name} exists in the class "
                            f"hierarchy of {'/'.join(c.name for c in cls)}", where)
                 else:
